@@ -158,6 +158,7 @@ def showAttr : String × Attr → String
   | (k, .ints l) => k ++ "=is:" ++ showInts l
   | (k, .tensor t) => k ++ "=t:" ++ t
   | (k, .opaque o) => k ++ "=o:" ++ o
+  | (k, .ref r) => k ++ "=r:" ++ r
 
 def lookupTok (ctx : Ctx) (t : String) : Option CInfo :=
   match lookupA ctx.toks t with
@@ -183,6 +184,7 @@ def processConstant (ctx : Ctx) (st : St) (n : Node) : St :=
           some { tok := "int:" ++ toString i, dtype := DT_INT64, shape := [], ints := some [i], isZero := some (i == 0) }
         else none
       | .opaque _ => none
+      | .ref _ => none
     match c? with
     | none => st
     | some c => st.setInfo o { dtype := some c.dtype, shape := some (c.shape.map fun (d : Nat) => Dim.known (Int.ofNat d)), const := some c }
@@ -258,6 +260,18 @@ def emitFold (ctx : Ctx) (st : St) (n : Node) (c : CInfo) : PRes × St :=
     (.repl n { newNodes := [], newOuts := [v], inits := [(v, c.tok)] },
      { st with initDisplay := nm :: st.initDisplay }.note "fold:initializer")
 
+/-- `ReferenceEvaluator.get_evaluator` answers None without consulting onnx.reference: the opset-13
+implementations of these operators are not valid below opset 13 (commit 9d7b9e7). -/
+def refEvaluatorMissing (n : Node) (version : Nat) : Bool :=
+  n.domain == "" && decide (version < 13) && ["Softmax", "LogSoftmax", "Hardmax"].contains n.op
+
+/-- the reference evaluator's answer for the node (the table is only consulted when an evaluator exists) -/
+def oracleAnswer (ctx : Ctx) (st : St) (n : Node) (version : Nat) : Option Oracle :=
+  if refEvaluatorMissing n version then some .fail else lookupA ctx.oracle (oracleKey st n version)
+
+/-- a node carrying an attribute reference (`attr.is_ref()`; only inside function bodies) -/
+def hasRefAttr (n : Node) : Bool := n.attrs.any fun a => match a.2 with | .ref _ => true | _ => false
+
 /-- The gate cascade of `process_node` (everything after the partial evaluators), in the code's
 order: Constant / control flow / non-deterministic / graph-input guard / all inputs constant /
 `gateProceed` / reference evaluation / `emitFold`. -/
@@ -271,7 +285,7 @@ def gateCascade (ctx : Ctx) (st : St) (n : Node) (version : Nat) : PRes × St :=
     match gateProceed ctx st n with
     | (false, st) => (.keep n, st)
     | (true, st) =>
-      match lookupA ctx.oracle (oracleKey st n version) with
+      match oracleAnswer ctx st n version with
       | none => (.keep n, { st with need := oracleKey st n version :: st.need })
       | some .fail => (.keep n, st.note "gate:evalfail")
       | some (.single c) => emitFold ctx st n c
@@ -298,6 +312,8 @@ def finishNode (ctx : Ctx) (n : Node) (version : Nat) : EvRes × St → PRes × 
 
 def processNode (ctx : Ctx) (st : St) (n0 : Node) : PRes × St :=
   let p := substInputs st n0
+  -- a reference attribute's value is only known at the call site: leave the node alone (commit 1825327)
+  if hasRefAttr p.1 then (.keep p.1, p.2.note "gate:refattr") else
   let st1 := if p.1.isOp "Constant" then processConstant ctx p.2 p.1 else p.2
   match lookupA ctx.imports p.1.domain with
   | none => (.keep p.1, st1.note "gate:noimport")
@@ -424,6 +440,16 @@ def initialState (g : Graph) (info : List (Name × VInfo)) : St :=
 def foldGraph (ctx : Ctx) (info : List (Name × VInfo)) (g : Graph) : St × Graph :=
   let (st, g') := visitGraph ctx maxDepth (initialState g info) g
   (st, pruneInits st.removed maxDepth g')
+
+/-! ### node-level shape inference (`_do_inference`): which constants it may be given -/
+
+/-- `_do_inference.get_constant_value`: the constant data handed to `onnx.shape_inference.infer_node_outputs`
+for an input — `_get_numpy_value(x, size_limit=20)`. -/
+def inferenceConstant (st : St) (x : Name) : Option CInfo := numpyValue st (some x) none (some 20)
+
+/-- the `input_data` dictionary of one `_do_inference` call -/
+def inferenceData (st : St) (n : Node) : List (Name × CInfo) :=
+  (n.inputs.filterMap id).filterMap fun x => (inferenceConstant st x).map fun c => (x, c)
 
 /-! ### optimize_ir pipeline (onnx_ir passes and the rewrite pass are parameters) -/
 
